@@ -5,6 +5,7 @@ import (
 	"fmt"
 	"runtime"
 	"sort"
+	"strings"
 	"time"
 
 	of "github.com/contiv/libOpenflow/openflow13"
@@ -274,6 +275,9 @@ func c10Eval(c *fw.Ctx, data any) {
 			if leak != "" {
 				c.Count("virtual_time_streams_leaving_goroutines_behind", 1)
 				c.Set("virtual_time_leak_reports", leak)
+				if strings.Contains(leak, "all goroutines in bubble are blocked") {
+					c.Violation("stream", "wedge", "deadlock-in-virtual-time", fmt.Sprintf("the case was still waiting for the stream when nothing in the bubble could run any more and no timer was pending (%s)\ncase: %+v", leak, *cs))
+				}
 			}
 			c.Recycle()
 			return
